@@ -1,8 +1,12 @@
 (* Extraction of the C18 models. ExtrOcamlBasic only; N / positive / nat stay Coq datatypes. *)
 From Coq Require Import Extraction ExtrOcamlBasic ZArith.
 From V Require Import C18.Model.
-Extraction "c18_model.ml" run_boot boot_end run_schedule applied_after_done invocations applied_events
+Extraction "c18_model.ml" run_boot boot_end run_schedule run_schedule_v applied_after_done invocations applied_events
   is_nil_ctx bits_of target_version opt_out_attempt beyond_registry vcontains
   bt_step bt_complete bt_migration commit_ranges preserved content acc_old acc_new wf_old no_empty_range get_first
   sdl_migrate sdl_done
+  sdl_attempt_ok sdl_apply sdl_run sdl_attempts_ok sdl_trace sdl_commits sdl_ck_ok sdl_wf sdl_uninterrupted
+  sdl_complete sdl_prepare sdl_step sdl_migration sdl_tok_ok
+  hs_attempt_ok hs_apply hs_run hs_attempts_ok hs_trace hs_commits hs_wipe hs_complete hs_uninterrupted
+  hs_legacy_view hs_new_view hs_consistent hs_wiped hs_ok hs_step hs_migration hs_tok_ok node_registry
   Z.of_N (* only so that the shared oracle glue finds the type z *).
